@@ -293,6 +293,15 @@ PrepIdx == /\ sloc' = [st \in Stores |-> IF IndexImmBusy(st) THEN sloc[st] ELSE 
 \* (\E binds the new file numbers once, see WriteBatch)
 FlushIdx == /\ \E nf \in {[st \in Stores |-> MaxFile(sloc[st]) + 1]} : sloc' = [st \in Stores |-> FlushedTo(sloc[st], nf[st])]
             /\ UNCHANGED <<nk, vals, vloc, series, holders, msid, dslot, dplace>>
+\* a flush of the shard index that fails at one store (the table file of that store cannot be completed): the stores
+\* flushed before it (`done`) have committed, the failing one and the ones after it keep their immutable generation --
+\* nothing is lost, the next flush persists it
+FlushIdxPartial(done) ==
+  /\ \E nf \in {[st \in Stores |-> MaxFile(sloc[st]) + 1]} :
+       sloc' = [st \in Stores |-> IF st \in done THEN FlushedTo(sloc[st], nf[st]) ELSE sloc[st]]
+  /\ UNCHANGED <<nk, vals, vloc, series, holders, msid, dslot, dplace>>
+\* ... of the tag value dictionary: the generation stays immutable
+FlushMetaFailed == UNCHANGED <<nk, vals, vloc, series, holders, msid, sloc, dslot, dplace>>
 CompactIdx == /\ \E nf \in {[st \in Stores |-> MaxFile(sloc[st]) + 1]} :
                  \E many \in {[st \in Stores |-> Cardinality(RealFiles(st)) >= 2]} :     \* Family.Compact: more than one file
                    sloc' = [st \in Stores |-> IF many[st] THEN MergedTo(sloc[st], nf[st]) ELSE sloc[st]]
